@@ -166,6 +166,27 @@ def exact_op(op, a, b):
     raise ValueError(op)
 
 
+def beyond_double(ai, exf, *operand_arrays):
+    """the value-based ('repr') calculation method works on doubles: when an operand value or the exact result is not a double, the
+    result of that method is the rounded double by definition (the properties claim exactness / agreement with the integer method for
+    short words only); the oracles skip such events instead of demanding more than a double can hold"""
+    if ai.method == 'raw':
+        return False
+
+    def not_double(e):
+        try:
+            return F(float(e)) != e
+        except OverflowError:
+            return True
+    if any(not_double(e) for e in exf):
+        return True
+    for a in operand_arrays:
+        vals = a.ravel().tolist() if isinstance(a, np.ndarray) else [a]
+        if any(not_double(F(v)) for v in vals):
+            return True
+    return False
+
+
 def flat(a):
     if isinstance(a, np.ndarray):
         return a.ravel().tolist(), tuple(a.shape)
